@@ -40,7 +40,11 @@ EXTENDS Integers, Sequences, FiniteSets, TLC
 
 CONSTANTS Writers, Subs, Ids, MaxV,
           Programs,            \* set of call records a writer may be given
-          SubKinds,            \* set of [uo, lossy, masked : BOOLEAN] records a subscriber may be given (masked: it has
+          SubKinds,            \* set of [uo, lossy, masked, inc : BOOLEAN] records (inc: the subscription carries the include
+                               \* predicate "the value is odd": its stream is that of the filtered collection -- a change
+                               \* that makes the item start / stop matching is handed over as an add / a removal, one
+                               \* between two non-matching versions not at all; only with backpressure here, C08 has the
+                               \* lossy combination).  The rest as before: [uo, lossy, masked : BOOLEAN] records a subscriber may be given (masked: it has
                                \* a read mask that keeps the tracked field; it is handed projections made for it
                                \* alone, the other subscribers still get the whole message -- ConcTrace.tla judges that
                                \* on the messages themselves, the bodies here are the tracked integer only)
@@ -69,6 +73,9 @@ CONSTANTS Writers, Subs, Ids, MaxV,
                                \* lossy subscriber merging that duplicate add with a later remove keeps a deleted item
 
 Absent == -1
+IsOdd(v) == v # Absent /\ v % 2 = 1
+\* what a subscriber of kind k is to hold for a stored value v
+Seen(k, v) == IF k.inc /\ ~IsOdd(v) THEN Absent ELSE v
 NoW == 0
 NoHeld == -5
 
@@ -229,13 +236,17 @@ Deliver(w) ==
          \* the forwarder's equivalence decision on taking the event from the bus
          last == IF fwd[s].h[e.id] # NoHeld THEN fwd[s].h[e.id]
                  ELSE IF Equiv \in {"coll", "coll-keep"} THEN pub[w].pre ELSE Absent
-         skip == Equiv # "none" /\ ~kind[s].lossy /\ last # Absent /\ last = e.v
+         oi == IsOdd(pub[w].pre)  ni == IsOdd(e.v)
+         excluded == kind[s].inc /\ ~kind[s].lossy /\ ~oi /\ ~ni
+         skip == excluded \/ (Equiv # "none" /\ ~kind[s].lossy /\ last # Absent /\ last = e.v)
          h2 == IF Equiv = "none" \/ kind[s].lossy THEN fwd[s].h
                ELSE [fwd[s].h EXCEPT ![e.id] = IF e.v = Absent THEN (IF Equiv = "coll-keep" THEN @ ELSE NoHeld) ELSE e.v]
      IN
      /\ fwd' = IF gone \/ skip THEN fwd      \* a cancelled listener is skipped (and the bus collected afterwards)
                 ELSE [fwd EXCEPT ![s] = [st |-> IF fwd[s].st = "wait" THEN "hold" ELSE fwd[s].st,
-                                         q |-> IF kind[s].lossy THEN Pipe(fwd[s].q, e) ELSE <<e>>, h |-> h2]]
+                                         q |-> IF kind[s].lossy THEN Pipe(fwd[s].q, e)
+                                               ELSE IF kind[s].inc THEN <<[e EXCEPT !.v = IF ni THEN e.v ELSE Absent, !.add = ni /\ ~oi]>>
+                                               ELSE <<e>>, h |-> h2]]
      \* (a change suppressed as equivalent is accounted for)
      /\ seen' = IF ~gone /\ skip THEN [seen EXCEPT ![s].seqs = seen[s].seqs \cup {e.seq}] ELSE seen
      /\ pub' = [pub EXCEPT ![w].targets = Tail(pub[w].targets), ![w].gc = gc]
@@ -333,7 +344,7 @@ SubListen(s) ==
   /\ spc' = [spc EXCEPT ![s] = "open"]
   /\ lsn' = Append(lsn, s)
   /\ mu' = [mu EXCEPT !.r = mu.r \ {s}, !.ser = IF mu.ser = 0 - s THEN NoW ELSE mu.ser]
-  /\ LET seeds == IF kind[s].uo THEN <<>> ELSE SeedSeq(Ids, snap[s]) IN
+  /\ LET seeds == IF kind[s].uo THEN <<>> ELSE SeedSeq(Ids, [i \in Ids |-> Seen(kind[s], snap[s][i])]) IN
      fwd' = [fwd EXCEPT ![s] = [st |-> IF seeds = <<>> THEN "wait" ELSE "seeding", q |-> seeds,
                                 \* (every seed has been handed to the consumer before the first event is looked at)
                                 h |-> [i \in Ids |-> IF Equiv = "none" \/ kind[s].uo \/ snap[s][i] = Absent THEN NoHeld
@@ -409,7 +420,7 @@ LoserCodes == \A w \in Writers : pc[w] = "done" =>
 AllDone == \A w \in Writers : pc[w] = "done"
 Drained(s) == spc[s] = "open" /\ fwd[s].st = "wait"
 Converged == AllDone => \A s \in Subs : Drained(s) =>
-               \A i \in Ids : (~kind[s].uo \/ seen[s].ids[i]) => view[s][i] = store[i].v
+               \A i \in Ids : (~kind[s].uo \/ seen[s].ids[i]) => view[s][i] = Seen(kind[s], store[i].v)
 \* nothing committed after a backpressured subscriber registered is missed: once everything is handed over it
 \* has received the event of every such commit
 NoCommitMissed == AllDone => \A s \in Subs : Drained(s) /\ ~kind[s].lossy =>
